@@ -334,9 +334,18 @@ func evaluateOverlap(before, after map[string]*Entry, o *overlapRun, aDone, bDon
 		if sameEntry(b, a, false) {
 			continue
 		}
+		okTemp, probe := false, false
+		if b == nil {
+			okTemp, probe = allowedTemp(p, a, o.exA)
+		}
 		switch {
-		case b == nil && allowedTemp(p, o.exA):
+		case okTemp:
 			v.Strays++
+			if probe {
+				v.Probes++
+			}
+		case b == nil && tempNamed(p, o.exA):
+			v.Problems = append(v.Problems, Problem{"only-temp-strays", "temp-file-outside-temp-location", fmt.Sprintf("%s was left behind: %s; it lies outside the temporary location of this configuration", p, a)})
 		case b == nil:
 			v.Problems = append(v.Problems, Problem{"only-temp-strays", "nontemp-entry-left", fmt.Sprintf("%s was left behind: %s", p, a)})
 		case a == nil:
